@@ -247,6 +247,8 @@ class Ctx(object):
         search is re-run with K excluded (counted), to enumerate further root causes."""
         from hypothesis import given, settings, seed, HealthCheck, Phase, Verbosity
         phases = [Phase.generate] + ([Phase.shrink] if shrink else [])
+        if self.tier == "thorough":
+            max_examples = int(max_examples * float(os.environ.get("VERIF_THOROUGH_SCALE", "3")))
         for rnd in range(rounds):
             last = {}
 
